@@ -1,11 +1,13 @@
 //! C16 — a SourceView shared between threads answers as if accessed by one.
 //!
 //! The harness owns the schedule: under `--cfg sourcemap_verif`, `SourceView::get_line`
-//! calls `verif_hooks::yield_point(n)` where it holds no lock. Every scenario thread parks
-//! at each yield point and before each call; a controller releases exactly one parked thread
-//! at a time, chosen by the next element of the schedule. An execution is therefore a
-//! deterministic function of (text, per-thread call lists, schedule): replayable, shrinkable
-//! and — for small shapes — enumerable exhaustively.
+//! calls `verif_hooks::yield_point(n)` where it holds no lock. Every scenario thread is a fiber
+//! (ucontext) that switches back to a controller at each yield point and before each call; the
+//! controller resumes exactly one of them at a time, chosen by the next element of the schedule.
+//! An execution is therefore a deterministic function of (text, per-thread call lists,
+//! schedule): replayable, shrinkable and — for small shapes — enumerable exhaustively. A call that
+//! blocks for good (self-deadlock on the view's mutex) is detected structurally by the waiting
+//! engine worker (`blocked_for_good`), not by a time-out.
 
 use std::cell::RefCell;
 use std::sync::{Arc, Barrier, Mutex};
@@ -56,149 +58,93 @@ enum Ev {
     Finished,
 }
 
-const NOBODY: usize = usize::MAX;
 
-/// Scheduler state of one execution. Hand-offs go through atomics that the waiting side
-/// polls (no lock is shared between pollers and the running thread).
-struct Shared {
-    turn: std::sync::atomic::AtomicUsize,
-    waiting: Vec<std::sync::atomic::AtomicBool>,
-    done: Vec<std::sync::atomic::AtomicBool>,
-    trace: Mutex<Vec<(usize, Ev)>>,
-    /// handles for the wake-ups: the controller and the scenario threads (by id)
-    controller: std::thread::Thread,
-    threads: Vec<std::thread::Thread>,
-    tids: Vec<Arc<std::sync::atomic::AtomicU64>>,
+// ---------------------------------------------------------------------------------------
+// scheduler: the scenario "threads" are fibers (ucontext) of ONE operating-system thread
+// ---------------------------------------------------------------------------------------
+//
+// `SourceView::get_line` is written for real threads, but between two yield points a thread
+// runs without interruption and - by construction of the hook - holds no lock of the view when
+// it reaches one. An interleaving of the calls' internal steps is therefore exactly a sequence
+// "resume fiber a until its next yield point, then fiber b, ...". Running the fibers on one OS
+// thread makes an execution a pure function of (text, call lists, schedule): no hand-off between
+// kernel threads, no dependence on the machine's load, ~10^6 executions per second and worker.
+// What this cannot show is the effect of two threads executing *inside* a critical section or
+// between two atomics at the same time; that is what the free-running `stress` sub is for.
+
+const FIBER_STACK: usize = 256 * 1024;
+
+struct Fiber {
+    ctx: Box<libc::ucontext_t>,
+    stack: Vec<u8>,
 }
 
-impl Shared {
-    fn new(n: usize, threads: Vec<std::thread::Thread>, tids: Vec<Arc<std::sync::atomic::AtomicU64>>) -> Shared {
-        use std::sync::atomic::{AtomicBool, AtomicUsize};
-        Shared {
-            controller: std::thread::current(),
-            threads,
-            tids,
-            turn: AtomicUsize::new(NOBODY),
-            waiting: (0..n).map(|_| AtomicBool::new(false)).collect(),
-            done: (0..n).map(|_| AtomicBool::new(false)).collect(),
-            trace: Mutex::new(vec![]),
-        }
+impl Fiber {
+    fn new() -> Fiber {
+        Fiber { ctx: Box::new(unsafe { std::mem::zeroed() }), stack: vec![0u8; FIBER_STACK] }
     }
-    fn park(&self, id: usize, ev: Ev) {
-        use std::sync::atomic::Ordering::{Acquire, Release};
-        self.trace.lock().unwrap().push((id, ev));
-        // give the turn back *before* reporting "parked": once the controller sees every
-        // thread parked, no thread has a pending store to `turn` left
-        self.turn.store(NOBODY, Release);
-        self.waiting[id].store(true, Release);
-        self.controller.unpark();
-        let mut spins = 0u32;
-        while self.turn.load(Acquire) != id {
-            relax(&mut spins);
-        }
-        self.waiting[id].store(false, Release);
-    }
-    fn note(&self, id: usize, ev: Ev) {
-        self.trace.lock().unwrap().push((id, ev));
-    }
-    fn finish(&self, id: usize) {
-        use std::sync::atomic::Ordering::Release;
-        self.trace.lock().unwrap().push((id, Ev::Finished));
-        self.turn.store(NOBODY, Release);
-        self.done[id].store(true, Release);
-        self.controller.unpark();
-    }
-    fn quiescent(&self) -> bool {
-        use std::sync::atomic::Ordering::Acquire;
-        self.turn.load(Acquire) == NOBODY
-            && (0..self.waiting.len()).all(|i| self.waiting[i].load(Acquire) || self.done[i].load(Acquire))
-    }
+}
+
+/// State of the execution that is running on this OS thread (reached from the fibers and from
+/// the yield hook through a thread-local raw pointer; no reference to it is kept across a
+/// context switch).
+struct Run {
+    main: libc::ucontext_t,
+    fibers: Vec<Fiber>,
+    view: Arc<SourceView>,
+    calls: Vec<Vec<Call>>,
+    answers: Vec<Vec<Answer>>,
+    done: Vec<bool>,
+    trace: Vec<(usize, Ev)>,
+    cur: usize,
+    in_fiber: bool,
 }
 
 thread_local! {
-    static CUR: RefCell<Option<(Arc<Shared>, usize)>> = const { RefCell::new(None) };
-    static POOL: RefCell<Pool> = RefCell::new(Pool::new());
+    static RUN: std::cell::Cell<*mut Run> = const { std::cell::Cell::new(std::ptr::null_mut()) };
+    static FIBERS: RefCell<Vec<Fiber>> = const { RefCell::new(Vec::new()) };
 }
 
-pub static TIMEOUTS: std::sync::atomic::AtomicU64 = std::sync::atomic::AtomicU64::new(0);
-
-struct Job {
-    view: Arc<SourceView>,
-    shared: Arc<Shared>,
-    calls: Vec<Call>,
-    id: usize,
-}
-
-/// Waiting step used by the scheduler hand-offs: spin briefly (a hand-off then costs well under
-/// a microsecond instead of a futex round trip), then sleep until woken. Every store that a
-/// waiter polls is followed by an `unpark` of that waiter; the time-out only bounds the cost of
-/// a wake-up that raced with going to sleep. Sleeping waiters are what keeps the check fast on
-/// a machine that is busy with other work: only the one thread that holds the turn needs a CPU.
-fn relax(spins: &mut u32) {
-    *spins = spins.wrapping_add(1);
-    if *spins < 400 {
-        std::hint::spin_loop();
-    } else {
-        std::thread::park_timeout(std::time::Duration::from_micros(if *spins < 2_000 { 200 } else { 2_000 }));
+/// Called on a fiber: record the event and switch back to the controller.
+fn park(ev: Ev) {
+    let run = RUN.with(|r| r.get());
+    debug_assert!(!run.is_null());
+    unsafe {
+        let (me, main) = {
+            let r: &mut Run = &mut *run;
+            let id = r.cur;
+            r.trace.push((id, ev));
+            r.in_fiber = false;
+            (&mut *r.fibers[id].ctx as *mut libc::ucontext_t, &r.main as *const libc::ucontext_t)
+        };
+        libc::swapcontext(me, main);
     }
 }
 
-type Slot = Arc<Mutex<Option<Job>>>;
-
-/// Persistent scenario threads of one engine worker (jobs handed over through polled slots).
-struct Pool {
-    slots: Vec<Slot>,
-    threads: Vec<std::thread::Thread>,
-    /// kernel thread ids of the scenario threads (0 until the thread has started)
-    tids: Vec<Arc<std::sync::atomic::AtomicU64>>,
-    done: Arc<Mutex<Vec<(usize, Vec<Answer>)>>>,
-}
-
-impl Pool {
-    fn new() -> Pool {
-        Pool { slots: vec![], threads: vec![], tids: vec![], done: Arc::new(Mutex::new(vec![])) }
+extern "C" fn fiber_main() {
+    let run = RUN.with(|r| r.get());
+    let (id, view, calls) = unsafe {
+        let r: &Run = &*run;
+        (r.cur, r.view.clone(), r.calls[r.cur].clone())
+    };
+    for (k, call) in calls.iter().enumerate() {
+        park(Ev::CallStart(k));
+        let a = perform(&view, *call);
+        unsafe {
+            let r: &mut Run = &mut *run;
+            r.answers[id].push(a);
+            r.trace.push((id, Ev::CallEnd(k)));
+        }
     }
-    fn grow(&mut self) {
-        let slot: Slot = Arc::new(Mutex::new(None));
-        let mine = slot.clone();
-        let done = self.done.clone();
-        let tid = Arc::new(std::sync::atomic::AtomicU64::new(0));
-        let my_tid = tid.clone();
-        let h = std::thread::spawn(move || {
-            // "/proc/thread-self" -> "<pid>/task/<tid>"
-            if let Ok(l) = std::fs::read_link("/proc/thread-self") {
-                if let Some(t) = l.file_name().and_then(|f| f.to_str()).and_then(|f| f.parse::<u64>().ok()) {
-                    my_tid.store(t, std::sync::atomic::Ordering::Release);
-                }
-            }
-            let mut spins = 0u32;
-            loop {
-                // the pool's owner dropped its handle: stop
-                if Arc::strong_count(&mine) == 1 {
-                    return;
-                }
-                let job = mine.lock().unwrap().take();
-                let Some(job) = job else {
-                    relax(&mut spins);
-                    continue;
-                };
-                spins = 0;
-                CUR.with(|c| *c.borrow_mut() = Some((job.shared.clone(), job.id)));
-                let mut out = vec![];
-                for (k, call) in job.calls.iter().enumerate() {
-                    job.shared.park(job.id, Ev::CallStart(k));
-                    out.push(perform(&job.view, *call));
-                    job.shared.note(job.id, Ev::CallEnd(k));
-                }
-                CUR.with(|c| *c.borrow_mut() = None);
-                done.lock().unwrap().push((job.id, out));
-                job.shared.finish(job.id);
-            }
-        });
-        self.threads.push(h.thread().clone());
-        self.tids.push(tid);
-        self.slots.push(slot);
+    drop(view);
+    drop(calls);
+    unsafe {
+        let r: &mut Run = &mut *run;
+        r.trace.push((id, Ev::Finished));
+        r.done[id] = true;
+        r.in_fiber = false;
     }
+    // returning continues at uc_link = the controller's context
 }
 
 fn hook(n: u32) {
@@ -206,9 +152,9 @@ fn hook(n: u32) {
     if n == 3 {
         return;
     }
-    let cur = CUR.with(|c| c.borrow().clone());
-    if let Some((sh, id)) = cur {
-        sh.park(id, Ev::Yield(n));
+    let run = RUN.with(|r| r.get());
+    if !run.is_null() && unsafe { (*run).in_fiber } {
+        park(Ev::Yield(n));
     }
 }
 
@@ -244,9 +190,148 @@ struct Execution {
     decisions: Vec<(usize, usize)>,
     after: Vec<(Call, Answer)>,
     stalled: bool,
-    /// set when the thread that holds the turn is asleep in the kernel inside a call on the view
-    /// while every other scenario thread is parked by the scheduler (see `probe_deadlock`)
+    /// set by the waiting engine worker when the executor thread is blocked for good
     deadlock: Option<String>,
+}
+
+/// Runs one schedule. `choices[k]` picks among the runnable threads at decision k (clamped);
+/// beyond the list the first runnable thread is chosen. Must run on an executor thread (see
+/// `on_executor`): a deadlock inside the view blocks the calling OS thread for good.
+fn execute(sc: &Scenario, choices: &[u8]) -> Execution {
+    let n = sc.threads.len();
+    PROGRESS.with(|p| {
+        if let Some(p) = p.borrow().as_ref() {
+            *p.lock().unwrap() = (format!("text {:?}, threads {:?}", sc.text, sc.threads), choices.to_vec(), vec![]);
+        }
+    });
+    let view = Arc::new(SourceView::new(sc.text.clone().into()));
+    let mut fibers = FIBERS.with(|f| std::mem::take(&mut *f.borrow_mut()));
+    while fibers.len() < n {
+        fibers.push(Fiber::new());
+    }
+    let mut run = Box::new(Run {
+        main: unsafe { std::mem::zeroed() },
+        fibers,
+        view: view.clone(),
+        calls: sc.threads.clone(),
+        answers: vec![vec![]; n],
+        done: vec![false; n],
+        trace: vec![],
+        cur: 0,
+        in_fiber: false,
+    });
+    let runp: *mut Run = &mut *run;
+    RUN.with(|r| r.set(runp));
+    unsafe {
+        let r: &mut Run = &mut *runp;
+        let main: *mut libc::ucontext_t = &mut r.main;
+        for f in r.fibers.iter_mut().take(n) {
+            libc::getcontext(&mut *f.ctx);
+            f.ctx.uc_stack.ss_sp = f.stack.as_mut_ptr() as *mut libc::c_void;
+            f.ctx.uc_stack.ss_size = f.stack.len();
+            f.ctx.uc_link = main;
+            libc::makecontext(&mut *f.ctx, fiber_main, 0);
+        }
+    }
+    let resume = |id: usize| unsafe {
+        let (main, to) = {
+            let r: &mut Run = &mut *runp;
+            r.cur = id;
+            r.in_fiber = true;
+            (&mut r.main as *mut libc::ucontext_t, &*r.fibers[id].ctx as *const libc::ucontext_t)
+        };
+        libc::swapcontext(main, to);
+        (*runp).in_fiber = false;
+    };
+    // every thread first runs up to the start of its first call (no order among those steps)
+    for id in 0..n {
+        resume(id);
+    }
+    let mut decisions = vec![];
+    let mut stalled = false;
+    loop {
+        let runnable: Vec<usize> = {
+            let r: &Run = unsafe { &*runp };
+            (0..n).filter(|i| !r.done[*i]).collect()
+        };
+        if runnable.is_empty() {
+            break;
+        }
+        if decisions.len() > 100_000 {
+            stalled = true;
+            break;
+        }
+        let k = decisions.len();
+        let pick = choices.get(k).map(|c| *c as usize).unwrap_or(0).min(runnable.len() - 1);
+        decisions.push((pick, runnable.len()));
+        PROGRESS.with(|p| {
+            if let Some(p) = p.borrow().as_ref() {
+                p.lock().unwrap().2.push(pick as u8);
+            }
+        });
+        resume(runnable[pick]);
+    }
+    RUN.with(|r| r.set(std::ptr::null_mut()));
+    let Run { fibers, answers, trace, .. } = *run;
+    if !stalled {
+        // (a fiber that never finished keeps frames on its stack: do not reuse those)
+        FIBERS.with(|f| *f.borrow_mut() = fibers);
+    }
+    if stalled {
+        return Execution { answers: vec![], trace, decisions, after: vec![], stalled, deadlock: None };
+    }
+    // the view must still be usable for later callers
+    let last = ref_lines(&sc.text).len() as u32 - 1;
+    let after = [Call::GetLine(0), Call::GetLine(last), Call::LineCount, Call::GetLine(last + 1)]
+        .into_iter()
+        .map(|c| (c, perform(&view, c)))
+        .collect();
+    Execution { answers, trace, decisions, after, stalled, deadlock: None }
+}
+
+// --- executor thread and structural deadlock detection ----------------------------------------
+
+type Progress = Arc<Mutex<(String, Vec<u8>, Vec<u8>)>>;
+
+thread_local! {
+    /// (on an executor thread) where the execution in progress is published: scenario, the
+    /// schedule it was given, the decisions taken so far
+    static PROGRESS: RefCell<Option<Progress>> = const { RefCell::new(None) };
+    static EXECUTOR: RefCell<Option<Executor>> = const { RefCell::new(None) };
+}
+
+type Job = Box<dyn FnOnce() + Send>;
+
+struct Executor {
+    tx: std::sync::mpsc::Sender<Job>,
+    tid: Arc<std::sync::atomic::AtomicU64>,
+    progress: Progress,
+}
+
+impl Executor {
+    fn spawn() -> Executor {
+        let (tx, rx) = std::sync::mpsc::channel::<Job>();
+        let tid = Arc::new(std::sync::atomic::AtomicU64::new(0));
+        let progress: Progress = Arc::new(Mutex::new((String::new(), vec![], vec![])));
+        let (t2, p2) = (tid.clone(), progress.clone());
+        std::thread::Builder::new()
+            .name("c16-executor".into())
+            .stack_size(8 << 20)
+            .spawn(move || {
+                // "/proc/thread-self" -> "<pid>/task/<tid>"
+                if let Ok(l) = std::fs::read_link("/proc/thread-self") {
+                    if let Some(t) = l.file_name().and_then(|f| f.to_str()).and_then(|f| f.parse::<u64>().ok()) {
+                        t2.store(t, std::sync::atomic::Ordering::Release);
+                    }
+                }
+                PROGRESS.with(|p| *p.borrow_mut() = Some(p2));
+                while let Ok(job) = rx.recv() {
+                    job();
+                }
+            })
+            .expect("spawn executor");
+        Executor { tx, tid, progress }
+    }
 }
 
 /// (state, user+system clock ticks, voluntary+involuntary context switches) of a thread of this process
@@ -267,135 +352,74 @@ fn thread_sample(tid: u64) -> Option<(char, u64, u64)> {
     Some((state, ticks, sw))
 }
 
-/// Structural deadlock detection (not a time-out): under this scheduler exactly one scenario
-/// thread - the one holding the turn - executes code of the crate; all others are parked *by the
-/// scheduler* at points where they hold no lock of the view. If the turn holder is asleep in the
-/// kernel (state S: blocked, not merely waiting for a CPU, which would be R), consumes no CPU time
-/// and is not switched in or out over 40 samples spread over 2 s, while the scheduler state does
-/// not change, it waits for something only another thread could provide - and no other thread can
-/// run until it yields. That is a deadlock of this execution whatever the machine's load.
-fn probe_deadlock(shared: &Shared) -> Option<String> {
-    use std::sync::atomic::Ordering::Acquire;
-    let x = shared.turn.load(Acquire);
-    if x == NOBODY || shared.waiting[x].load(Acquire) || shared.done[x].load(Acquire) {
-        return None;
-    }
-    let tid = shared.tids[x].load(Acquire);
-    if tid == 0 {
-        return None;
-    }
-    let first = thread_sample(tid)?;
+/// Structural deadlock detection (not a time-out). All fibers of an execution live on the
+/// executor thread, which does nothing else; nothing it waits for can be provided by another
+/// thread (the view is private to the execution). If that thread is asleep in the kernel (state
+/// S: blocked - a thread that merely waits for a CPU is R), consumes no CPU time and is not
+/// switched in or out over 40 samples spread over 2 s, it is blocked for good: the execution
+/// has deadlocked, whatever the machine's load.
+fn blocked_for_good(tid: u64) -> bool {
+    let Some(first) = thread_sample(tid) else { return false };
     if first.0 != 'S' {
-        return None;
+        return false;
     }
     for _ in 0..40 {
         std::thread::sleep(std::time::Duration::from_millis(50));
-        if shared.turn.load(Acquire) != x || shared.waiting[x].load(Acquire) || shared.done[x].load(Acquire) {
-            return None;
-        }
-        let s = thread_sample(tid)?;
-        if s != first {
-            return None;
+        match thread_sample(tid) {
+            Some(s) if s == first => {}
+            _ => return false,
         }
     }
-    let trace = shared.trace.lock().ok().map(|t| t.clone()).unwrap_or_default();
-    let last = trace.iter().rev().find(|e| e.0 == x).map(|e| e.1);
-    Some(format!(
-        "thread {x} is blocked inside its call (last event {last:?}; kernel state S, no CPU time and no context switch over 2 s) while every other thread is parked by the scheduler or done: nothing can ever wake it"
-    ))
+    true
 }
 
-/// Runs one schedule. `choices[k]` picks among the runnable threads at decision k (clamped);
-/// beyond the list the first runnable thread is chosen.
-fn execute(sc: &Scenario, choices: &[u8]) -> Execution {
-    let n = sc.threads.len();
-    let view = Arc::new(SourceView::new(sc.text.clone().into()));
-    POOL.with(|p| {
-        let mut p = p.borrow_mut();
-        while p.slots.len() < n {
-            p.grow();
+/// Runs `job` on this worker's executor thread and waits for its result; `Err(description)` if
+/// the executor deadlocked inside an execution (it is then abandoned and replaced).
+fn on_executor<R: Send + 'static>(job: impl FnOnce() -> R + Send + 'static) -> Result<R, String> {
+    let (rtx, rrx) = std::sync::mpsc::channel::<R>();
+    let (tid, progress) = EXECUTOR.with(|e| {
+        let mut e = e.borrow_mut();
+        if e.is_none() {
+            *e = Some(Executor::spawn());
         }
+        let ex = e.as_ref().unwrap();
+        ex.tx
+            .send(Box::new(move || {
+                let _ = rtx.send(job());
+            }))
+            .expect("executor alive");
+        (ex.tid.clone(), ex.progress.clone())
     });
-    let shared = Arc::new(POOL.with(|p| {
-        let p = p.borrow();
-        Shared::new(n, p.threads[..n].to_vec(), p.tids[..n].to_vec())
-    }));
-    // scenario threads come from a per-worker pool (spawning threads per execution costs more
-    // than the execution and serialises on the process' address-space lock)
-    POOL.with(|p| {
-        let mut p = p.borrow_mut();
-        while p.slots.len() < n {
-            p.grow();
-        }
-        p.done.lock().unwrap().clear();
-        for (id, calls) in sc.threads.iter().enumerate() {
-            let job = Job { view: view.clone(), shared: shared.clone(), calls: calls.clone(), id };
-            *p.slots[id].lock().unwrap() = Some(job);
-            p.threads[id].unpark();
-        }
-    });
-    let mut decisions = vec![];
-    let mut stalled = false;
-    let mut deadlock: Option<String> = None;
+    let mut waited = 0u32;
     loop {
-        // wait until nobody runs: every thread is parked or done
-        let started = std::time::Instant::now();
-        let mut spins = 0u32;
-        let mut probed_at = 0u64;
-        while !shared.quiescent() {
-            relax(&mut spins);
-            let waited = started.elapsed();
-            if spins > 2_000 && waited.as_millis() as u64 >= probed_at + 1_000 {
-                probed_at = waited.as_millis() as u64;
-                if let Some(d) = probe_deadlock(&shared) {
-                    deadlock = Some(d);
-                    stalled = true;
-                    break;
+        match rrx.recv_timeout(std::time::Duration::from_millis(if waited == 0 { 50 } else { 1000 })) {
+            Ok(r) => return Ok(r),
+            Err(std::sync::mpsc::RecvTimeoutError::Disconnected) => {
+                EXECUTOR.with(|e| *e.borrow_mut() = None);
+                return Err("harness: the executor thread died".into());
+            }
+            Err(std::sync::mpsc::RecvTimeoutError::Timeout) => {
+                waited += 1;
+                crate::engine::heartbeat();
+                let t = tid.load(std::sync::atomic::Ordering::Acquire);
+                if waited >= 2 && t != 0 && blocked_for_good(t) {
+                    // is it still inside the same execution?
+                    if let Ok(r) = rrx.try_recv() {
+                        return Ok(r);
+                    }
+                    let (what, given, taken) = progress.lock().map(|p| p.clone()).unwrap_or_default();
+                    EXECUTOR.with(|e| *e.borrow_mut() = None);
+                    return Err(format!(
+                        "deadlock on {what}: after the scheduling decisions {taken:?} (schedule given: {given:?}) the resumed thread is blocked inside its call \
+                         (kernel state S, no CPU time and no context switch over 2 s) although it is the only thread that can run: nothing can ever wake it"
+                    ));
                 }
             }
-            if spins % 4096 == 0 && waited.as_secs() >= 60 {
-                stalled = true;
-                break;
-            }
         }
-        if stalled {
-            break;
-        }
-        use std::sync::atomic::Ordering::{Acquire, Release};
-        let runnable: Vec<usize> = (0..n).filter(|i| shared.waiting[*i].load(Acquire) && !shared.done[*i].load(Acquire)).collect();
-        if runnable.is_empty() {
-            break;
-        }
-        let k = decisions.len();
-        let pick = choices.get(k).map(|c| *c as usize).unwrap_or(0).min(runnable.len() - 1);
-        decisions.push((pick, runnable.len()));
-        shared.turn.store(runnable[pick], Release);
-        shared.threads[runnable[pick]].unpark();
     }
-    if stalled {
-        // threads are stuck (deadlock inside the view?): do not wait for them
-        POOL.with(|p| *p.borrow_mut() = Pool::new());
-        return Execution { answers: vec![], trace: shared.trace.lock().unwrap().clone(), decisions, after: vec![], stalled, deadlock };
-    }
-    let mut answers: Vec<Vec<Answer>> = vec![vec![]; n];
-    POOL.with(|p| {
-        // every thread pushed its answers before it reported `done`
-        for (id, a) in p.borrow().done.lock().unwrap().drain(..) {
-            answers[id] = a;
-        }
-    });
-    // the view must still be usable for later callers
-    let last = ref_lines(&sc.text).len() as u32 - 1;
-    let after = [Call::GetLine(0), Call::GetLine(last), Call::LineCount, Call::GetLine(last + 1)]
-        .into_iter()
-        .map(|c| (c, perform(&view, c)))
-        .collect();
-    let mut trace = shared.trace.lock().unwrap().clone();
-    // the threads reach their first parking point concurrently: that prefix has no order
-    let k = n.min(trace.len());
-    trace[..k].sort_by_key(|e| e.0);
-    Execution { answers, trace, decisions, after, stalled, deadlock }
 }
+
+pub static TIMEOUTS: std::sync::atomic::AtomicU64 = std::sync::atomic::AtomicU64::new(0);
 
 /// Was some thread pre-empted between its finished check and its indexing lock while another
 /// thread went through its own indexing section?
@@ -423,7 +447,7 @@ fn judge(sc: &Scenario, ex: &Execution, schedule: &[u8]) -> Result<(), String> {
         return Err(format!("deadlock on text {:?}, threads {:?}: {d}; schedule {schedule:?}", sc.text, sc.threads));
     }
     if ex.stalled {
-        println!("INCONCLUSIVE property=C16 an execution made no progress for 60 s (possible deadlock); scenario {sc:?} schedule {schedule:?}");
+        println!("INCONCLUSIVE property=C16 an execution did not finish within 100000 scheduling decisions; scenario {sc:?} schedule {schedule:?}");
         std::process::exit(2);
     }
     for (t, calls) in sc.threads.iter().enumerate() {
@@ -451,6 +475,28 @@ fn judge(sc: &Scenario, ex: &Execution, schedule: &[u8]) -> Result<(), String> {
 
 fn check(c: &Case, obs: &mut Obs) -> Verdict {
     install_hook();
+    // the executions run on this worker's executor thread; this thread only waits (and decides
+    // whether the executor is blocked for good)
+    let c2 = c.clone();
+    match on_executor(move || {
+        let mut o = Obs::default();
+        let v = check_on_executor(&c2, &mut o);
+        (v, o)
+    }) {
+        Ok((v, o)) => {
+            for cl in o.classes {
+                obs.class(cl);
+            }
+            obs.nontrivial |= o.nontrivial;
+            obs.excluded_known += o.excluded_known;
+            obs.inner_evals += o.inner_evals;
+            v
+        }
+        Err(d) => Verdict::Fail(d),
+    }
+}
+
+fn check_on_executor(c: &Case, obs: &mut Obs) -> Verdict {
     let sc = &c.scenario;
     if sc.threads.is_empty() || sc.threads.len() > 6 {
         return Verdict::Fail("harness: 1..6 threads expected".into());
@@ -754,13 +800,14 @@ pub const DEF: PropertyDef = PropertyDef {
            get_line(count), get_line(u32::MAX), line_count, lines}; each case explores EVERY interleaving of its threads' steps by stateless \
            DFS (inner evaluations = executions). random_schedules: proptest (scenario of 2..4 threads x 1..3 calls, schedule of <= 40 \
            choices). stress: free-running real threads (2..14) released by a barrier, hook not parking. Oracle: every call returns what a \
-           fresh single-threaded view returns (reference splitter), no panic, and the view still answers get_line(0), get_line(last), \
+           fresh single-threaded view returns (reference splitter), no panic, no call blocked for good (deadlock), and the view still answers get_line(0), get_line(last), \
            line_count afterwards. Non-trivial = some thread was pre-empted between its finished check and its indexing lock while another \
            thread went through the indexing section (measured on the scheduler trace)",
     assumptions: &[
         "the scheduler is sequentially consistent: bugs that need hardware reordering of the Relaxed atomics are only probed by the stress run",
         "no yield point lies inside a critical section, so a running thread can never block on the view's mutex held by a parked thread",
-        "an execution without progress for 60 s is reported as inconclusive (exit 2), never as a violation",
+        "the scenario threads of the scheduler subs are fibers of one OS thread: what two threads do at the same instant inside a critical section or between two atomics is only probed by the stress run",
+        "deadlock = the executor thread (which runs nothing but the fibers of one private view) is asleep in the kernel with no CPU time and no context switch over 40 samples in 2 s; an execution that exceeds 100000 scheduling decisions, or any other lack of progress, is inconclusive (exit 2), never a violation",
     ],
     subs,
 };
